@@ -57,11 +57,22 @@ Fixpoint encode_loop (steps : list step) (l cap : N) : outcome (bytes * list ste
       else Ok ([], steps)
   end.
 
+(* The drain after the loop (encode.rs 125-133, /repo commit 00b5d35): every LEADING step with nothing left to
+   write (is_encoding_step_empty 608-617: a slice step whose remaining length is 0) is popped, whatever room is
+   left, so that a packet whose bytes are all written is reported Complete.  Integral steps are never empty. *)
+Fixpoint drop_empty (steps : list step) : list step :=
+  match steps with
+  | SBytes [] :: rest => drop_empty rest
+  | _ => steps
+  end.
+
 (* One call of Encoder::encode on a destination of capacity [cap] already holding [fill] bytes.
    Returns the bytes appended by this call and the remaining steps ([] = EncodeResult::Complete,
-   otherwise EncodeResult::Full).  Panic 1 = "Encoder::encode - target buffer too small". *)
+   otherwise EncodeResult::Full).  Panic 1 = "Encoder::encode - target buffer too small".
+   The drain runs after every loop exit except an error (`?` returns before it). *)
 Definition encode_call (steps : list step) (fill cap : N) : outcome (bytes * list step) :=
-  if cap <? 4 then Panic 1 else encode_loop steps fill cap.
+  if cap <? 4 then Panic 1
+  else do (out, rest) <- encode_loop steps fill cap ; Ok (out, drop_empty rest).
 
 (* all bytes the steps produce with unlimited space *)
 Fixpoint flatten (steps : list step) : outcome bytes :=
